@@ -98,5 +98,12 @@ Definition list_of {X} (f : sexp -> option X) (x : sexp) : option (list X) :=
 Definition cps_of (x : sexp) : option (list N) := list_of n_of x.
 Definition sx_cps (l : list N) : sexp := L (map sx_n l).
 
+(* byte strings given as number lists: (117 110 ...) *)
+Definition bytes_of (x : sexp) : option string :=
+  match cps_of x with
+  | Some l => Some (string_of_list_ascii (map ascii_of_N l))
+  | None => None
+  end.
+
 Definition tag_is (t : string) (x : sexp) : bool :=
   match x with A s => String.eqb s t | _ => false end.
